@@ -217,3 +217,5 @@ def run(ctx):
     import rules.C07 as C07
     from absint import Prover
     ctx.step(C07.r07_1, ctx, A, Prover(lib))
+    # ... and every other emission hands the sink the whole buffer (write_all): a bare write() on a short-writing sink drops the tail
+    ctx.step(C07.r07_2, ctx, A)
